@@ -16,10 +16,16 @@
 //!   c15.writeto kind value <fmt> lenient   DelayedFormat::write_to(&mut String) -> text | err:fmt
 //!   c15.rem kind <text> <fmt>       T::parse_and_remainder(text, fmt) -> (value, rest) | err:<kind>
 //!   c15.prem <text> (items)         format::parse_and_remainder(&mut Parsed::new(), text, items) -> rest | err:<kind>
+//!   c15.errtext which variant       to_string() / format!("{:?}") of an error value -> text
+//!                                   which 0 ParseError Display (variant = kind 0..6 in declaration order), 1 / 2 OutOfRange Display / Debug,
+//!                                   3 / 4 ParseMonthError Display / Debug, 5 / 6 ParseWeekdayError Display / Debug,
+//!                                   7 RoundingError Display (variant 0..2), 8 OutOfRangeError Display (variant 0 where there is one value)
+//!   c15.isoweek.dbg date            format!("{:?}", date.iso_week()) -> text
+//!   c15.wdset.dbg bits              format!("{:?}", WeekdaySet of the bits 0..127, Mon = bit 0) -> text
 //! kind: 0 NaiveDate, 1 NaiveTime, 2 NaiveDateTime, 3 DateTime<FixedOffset>, 4 DateTime<Utc> (writeto only).
 use crate::val::*;
 use chrono::format::{Fixed, Item, Numeric, Pad, ParseError, ParseErrorKind, Parsed, StrftimeItems};
-use chrono::{DateTime, FixedOffset, MappedLocalTime, NaiveDate, NaiveDateTime, NaiveTime, TimeZone, Timelike, Utc};
+use chrono::{DateTime, Datelike, FixedOffset, MappedLocalTime, Month, NaiveDate, NaiveDateTime, NaiveTime, RoundingError, TimeDelta, TimeZone, Timelike, Utc, Weekday, WeekdaySet};
 
 fn kind_name(e: ParseError) -> &'static str {
     match e.kind() {
@@ -112,8 +118,60 @@ fn sel<T: Clone>(m: MappedLocalTime<T>, f: impl Fn(T) -> Val) -> Val {
     vtup(vec![vopt(m.clone().single(), &f), vopt(m.clone().earliest(), &f), vopt(m.latest(), &f)])
 }
 
+/// an error value of each public error type, obtained through the public API
+fn parse_error(kind: i128) -> Option<ParseError> {
+    let (text, f, want) = match kind {
+        0 => ("2023-13-01", "%Y-%m-%d", ParseErrorKind::OutOfRange),
+        1 => ("2023 2024", "%Y %Y", ParseErrorKind::Impossible),
+        2 => ("2023", "%Y", ParseErrorKind::NotEnough),
+        3 => ("x", "%Y", ParseErrorKind::Invalid),
+        4 => ("", "%Y", ParseErrorKind::TooShort),
+        5 => ("2023-01-01x", "%Y-%m-%d", ParseErrorKind::TooLong),
+        6 => ("", "%Q", ParseErrorKind::BadFormat),
+        _ => return None,
+    };
+    let e = NaiveDate::parse_from_str(text, f).err()?;
+    if e.kind() == want { Some(e) } else { None }
+}
+fn err_text(which: i128, variant: i128) -> Option<Val> {
+    if which != 0 && which != 7 && variant != 0 { return None; }
+    Some(vstr(&match which {
+        0 => parse_error(variant)?.to_string(),
+        1 => Month::try_from(13u8).err()?.to_string(),
+        2 => format!("{:?}", Month::try_from(13u8).err()?),
+        3 => "x".parse::<Month>().err()?.to_string(),
+        4 => format!("{:?}", "x".parse::<Month>().err()?),
+        5 => "x".parse::<Weekday>().err()?.to_string(),
+        6 => format!("{:?}", "x".parse::<Weekday>().err()?),
+        7 => match variant {
+            0 => RoundingError::DurationExceedsTimestamp,
+            1 => RoundingError::DurationExceedsLimit,
+            2 => RoundingError::TimestampExceedsLimit,
+            _ => return None,
+        }.to_string(),
+        8 => TimeDelta::try_seconds(-1)?.to_std().err()?.to_string(),
+        _ => return None,
+    }))
+}
+
 pub fn dispatch(op: &str, a: &[Val]) -> Option<Val> {
     let r = match op {
+        "c15.errtext" => (|| {
+            if a.len() != 2 { return None; }
+            err_text(a[0].int()?, a[1].int()?)
+        })(),
+        "c15.isoweek.dbg" => (|| {
+            if a.len() != 1 { return None; }
+            Some(vstr(&format!("{:?}", dec_date(&a[0])?.iso_week())))
+        })(),
+        "c15.wdset.dbg" => (|| {
+            if a.len() != 1 { return None; }
+            let b = a[0].int()?;
+            if !(0..128).contains(&b) { return None; }
+            let mut set = WeekdaySet::EMPTY;
+            for i in 0..7u8 { if (b >> i) & 1 == 1 { set.insert(Weekday::try_from(i).ok()?); } }
+            Some(vstr(&format!("{:?}", set)))
+        })(),
         "c15.d.hms" => (|| {
             if a.len() != 4 { return None; }
             Some(vopt(dec_date(&a[0])?.and_hms_opt(a[1].u32()?, a[2].u32()?, a[3].u32()?), enc_ndt))
